@@ -1,7 +1,7 @@
 (** C19 — the payload is bound to the server's FULL secret: GeneratePayload / CheckPayload
     round trip, rejection of payloads made under any other key. *)
 From Coq Require Import String Ascii List NArith ZArith Bool Lia.
-From Tongo Require Import Lib.Bits Lib.Res Model.TonConnect Proofs.TonConnectP Proofs.TonConnectQ.
+From Tongo Require Import Lib.Bits Lib.Res Model.TonConnect Proofs.TonConnectP Proofs.TonConnectQ Proofs.TonConnectA.
 Import ListNotations.
 Local Open Scope Z_scope.
 
@@ -158,3 +158,38 @@ Section Payload.
     symmetry. rewrite Z.gtb_ltb. apply Z.ltb_lt. lia.
   Qed.
 End Payload.
+
+(** * The payload text is exactly 64 hexadecimal digits: nothing may follow or precede them *)
+Definition is_hex_digit (c : N) : Prop := nib c <> None.
+
+Lemma hex_decode_all_hex h : forall b, hex_decode h = Some b -> Forall is_hex_digit h.
+Proof.
+  induction h as [| a | a c t IH] using pair_ind; intros b Hd.
+  - constructor.
+  - discriminate.
+  - cbn [hex_decode] in Hd.
+    destruct (nib a) eqn:Ea; [|discriminate]. destruct (nib c) eqn:Ec; [|discriminate].
+    destruct (hex_decode t) as [r|] eqn:Et; [|discriminate].
+    constructor; [unfold is_hex_digit; congruence|]. constructor; [unfold is_hex_digit; congruence|].
+    eapply IH. reflexivity.
+Qed.
+
+Theorem accepted_payload_text_exact hmac secret lifetime now payload :
+  check_payload hmac secret lifetime now payload = Ok true ->
+  length payload = 64%nat /\ Forall is_hex_digit payload.
+Proof.
+  intros Hc. apply check_payload_accept_inv in Hc as (b & Hh & Hl & _).
+  split.
+  - rewrite (hex_decode_length _ _ Hh), Hl. reflexivity.
+  - eapply hex_decode_all_hex. exact Hh.
+Qed.
+
+(* a genuine payload followed (or preceded) by anything is rejected *)
+Corollary payload_with_tail_rejected hmac secret lifetime now payload tail :
+  length payload = 64%nat -> tail <> [] ->
+  check_payload hmac secret lifetime now (payload ++ tail) <> Ok true /\
+  check_payload hmac secret lifetime now (tail ++ payload) <> Ok true.
+Proof.
+  intros Hl Ht. split; intros Hc; apply accepted_payload_text_exact in Hc as [Hlen _];
+    rewrite app_length, Hl in Hlen; destruct tail; [contradiction|cbn in Hlen; lia|contradiction|cbn in Hlen; lia].
+Qed.
